@@ -66,7 +66,9 @@ def run(ctx):
         "rdata": ("port_to.rdata", "port_from.rdata", "port_to.clock_domain", "port_from.clock_domain", "rdata_description", [Sym("port_from.data_width")]),
     }
     used = set()
+    passed = set()
     depth_of = {}
+    depth_term = {}
     # links between stream endpoints: consecutive elements of a Pipeline, or an unguarded whole-record connect (no omit / keep) - both forward valid,
     # ready and the payload unchanged.  "X" as a link end means the module X (its .sink / .source).
     links = []
@@ -80,8 +82,51 @@ def run(ctx):
             links.append((a_[:-len(".source")] if a_.endswith(".source") else a_, b_[:-len(".sink")] if b_.endswith(".sink") else b_))
             plain.append(id(l))
     for nm, (src, dst, cdf, cdt, desc, dargs) in want.items():
-        mids = [b_ for a_, b_ in links if a_ == src and (b_, dst) in links and any(str(o) == b_ for o in cdcs)]
-        pl = [[src, mids[0], dst]] if mids else []
+        # a path src -> ... -> dst along plain links; exactly one node is a ClockDomainCrossing, any other intermediate node must be a lossless in-order stream
+        # primitive (stream.Buffer / SyncFIFO) clocked by the domain of the side it sits on
+        def paths(n_, seen_):
+            if n_ == dst:
+                yield [n_]
+                return
+            for a_, b_ in links:
+                if a_ == n_ and b_ not in seen_:
+                    for r_ in paths(b_, seen_ | {b_}):
+                        yield [n_] + r_
+        byname = {str(o): o for o in v.d.objs if o.cls in ("ClockDomainCrossing", "Buffer", "SyncFIFO")}
+        cand = [p_ for p_ in paths(src, {src}) if sum(1 for n_ in p_[1:-1] if n_ in byname and byname[n_].cls == "ClockDomainCrossing") == 1]
+        pl = []
+        for p_ in cand:
+            ci = [i_ for i_, n_ in enumerate(p_) if n_ in byname and byname[n_].cls == "ClockDomainCrossing"][0]
+            okp = True
+            for i_, n_ in enumerate(p_[1:-1], 1):
+                if i_ == ci:
+                    continue
+                o_ = byname.get(n_)
+                if o_ is None:
+                    okp = False
+                    ob1.unknown("%s: the path %s passes %s, which is not a stream primitive this rule knows to be lossless and ordered" % (nm, p_, n_))
+                    continue
+                side = cdf if i_ < ci else cdt
+                wr_ = [w_ for w_ in o_.meta.get("wrappers", []) if w_[0] == "ClockDomainsRenamer"]
+                dom = key(wr_[0][1][0]) if wr_ and wr_[0][1] else "'sys'"
+                ob1.instance("%s: %s on the %s side" % (nm, n_, "source" if i_ < ci else "destination"), {"clocked by": dom, "side domain": side})
+                if dom != side:
+                    if dom == "'sys'" and not wr_:
+                        ob1.unknown("%s: %s is clocked by the default domain while its side of the crossing is %s" % (nm, n_, side))
+                    else:
+                        ob1.refute("buffer-domain:%s:%s" % (nm, n_), "%s sits on the %s side of the %s crossing (domain %s) but is clocked by %s: its handshake is sampled in "
+                                   "the wrong clock domain" % (n_, "source" if i_ < ci else "destination", nm, side, dom), o_.loc)
+                    okp = False
+                lay_ = layout_of(o_)
+                want_f = {"cmd": {"we", "addr"}, "wdata": {"data", "we"}, "rdata": {"data"}}[nm]
+                if lay_ is not None and not want_f <= {n2 for n2, _ in lay_}:
+                    ob1.refute("buffer-layout:%s:%s" % (nm, n_), "%s carries %s, the %s channel needs %s" % (n_, lay_, nm, sorted(want_f)), o_.loc)
+                    okp = False
+            if okp:
+                pl = [[src, p_[ci], dst]]
+                for n_ in p_[1:-1]:
+                    passed.add(n_)
+                break
         if not pl:
             ob1.refute("pipeline:%s" % nm, "%s does not reach %s through a ClockDomainCrossing by plain stream links (Pipeline elements or whole-record connects): links are %s" %
                        (src, dst, links), None)
@@ -97,6 +142,7 @@ def run(ctx):
         dk_ = key(c.kwargs.get("depth")) if c.kwargs.get("depth") is not None else None
         ob6.instance("%s crossing depth" % nm, dk_)
         depth_of[nm] = (dk_, c)
+        depth_term[nm] = c.kwargs.get("depth")
         if (f, t) != (cdf, cdt):
             ob1.refute("direction:%s" % nm, "%s crosses from %s to %s, expected %s -> %s" % (nm, f, t, cdf, cdt), c.loc)
         # layout agreement
@@ -120,7 +166,7 @@ def run(ctx):
                 ob2.refute("layout:%s" % nm, "the %s crossing carries %s but the port's %s is %s: a missing field is dropped, a narrower one truncated" %
                            (nm, got, desc, exp), c.loc)
     # nothing else may touch the handshake or payload of the six port endpoints or of the crossings
-    eps = {e_ for nm, w_ in want.items() for e_ in w_[:2]} | {str(o) + sfx for o in cdcs for sfx in (".sink", ".source")}
+    eps = {e_ for nm, w_ in want.items() for e_ in w_[:2]} | {str(o) + sfx for o in cdcs for sfx in (".sink", ".source")} | {n_ + sfx for n_ in passed for sfx in (".sink", ".source")}
     for l in v.leaves:
         if l.kind not in ("assign", "connect") or id(l) in plain:
             continue
@@ -167,11 +213,15 @@ def run(ctx):
                 ob3.refute("converter-domain:%s" % tag, "the width converter behind the crossing is not placed in the user clock domain "
                            "(ClockDomainsRenamer(%r))" % cd, conv[0].loc if conv else None)
         # C08.5: depths passed by get_port
-        depth_kw = {k: key(x) for k, x in c.kwargs.items() if k.endswith("depth")}
-        extra_args = [key(x) for x in c.args[2:]]
-        ob5.instance(tag + " crossing depths", {"kwargs": depth_kw, "positional": extra_args})
+        pn5, _ = cdc_params(ctx)
+        ckw = dict(c.kwargs)
+        for pn_, x_ in zip(pn5, c.args[2:]):          # positional depths bound to the formal parameter names
+            ckw.setdefault(pn_, x_)
+        depth_kw = {k: key(x) for k, x in ckw.items() if k.endswith("depth")}
+        extra_args = [key(x) for x in c.args[2 + len(pn5):]]
+        ob5.instance(tag + " crossing depths", {"arguments": depth_kw})
         if extra_args:
-            ob5.unknown("%s: positional depth arguments %s" % (tag, extra_args))
+            ob5.unknown("%s: unexpected positional arguments %s" % (tag, extra_args))
         import ast as _ast
         defaults = {}
         cn = ctx.repo.module(AD).classes.get("LiteDRAMNativePortCDC")
@@ -181,7 +231,7 @@ def run(ctx):
                 for a, dflt in zip(names[len(names) - len(fn.args.defaults):], fn.args.defaults):
                     if isinstance(dflt, _ast.Constant):
                         defaults[a] = dflt.value
-        for k_, x in c.kwargs.items():
+        for k_, x in ckw.items():
             if k_.endswith("depth") and k_ in defaults:
                 ge = lin_ge(x, Const(defaults[k_]))
                 if ge is not True:
@@ -191,13 +241,31 @@ def run(ctx):
     # C08.6: own parameter per channel, default sizing
     pnames, dfl = cdc_params(ctx)
     import ast as _ast2
+    from ..bits import ieval, Unresolved
+    own = {}
     for nm, (dk_, c_) in depth_of.items():
-        others = [n2 for n2, (d2, _) in depth_of.items() if n2 != nm and d2 == dk_]
-        if dk_ not in pnames:
-            ob6.refute("depth-param:%s" % nm, "the %s crossing is built with depth %s, which is not one of the adapter's depth parameters %s" % (nm, dk_, pnames), c_.loc)
-        elif others and nm < others[0]:
+        t_ = depth_term.get(nm)
+        sup_ = sorted(set(support(t_)) & set(pnames)) if t_ is not None else []
+        if not ob6.need(t_ is not None, "%s crossing has no depth argument" % nm):
+            continue
+        if len(sup_) != 1:
+            ob6.refute("depth-param:%s" % nm, "the %s crossing is built with depth %s, which depends on %s of the adapter's depth parameters %s (expected exactly its own)" %
+                       (nm, dk_, sup_ or "none", pnames), c_.loc)
+            continue
+        own[nm] = sup_[0]
+        # the FIFO may be deeper than requested (rounding up to a power of two, a minimum), never shallower
+        try:
+            short = [(p_, ieval(t_, {sup_[0]: p_})) for p_ in (1, 2, 3, 4, 5, 7, 8, 9, 15, 16, 17, 31, 32, 33, 64) if ieval(t_, {sup_[0]: p_}) < p_]
+        except (Unresolved, Exception) as e_:
+            ob6.unknown("%s crossing: depth term %s not evaluable (%s)" % (nm, dk_, e_))
+            continue
+        if short:
+            ob6.refute("depth-param:%s" % nm, "the %s crossing is built with depth %s, which is smaller than the requested %s for %s" % (nm, dk_, sup_[0], short[:3]), c_.loc)
+    for nm, pn in sorted(own.items()):
+        others = sorted(n2 for n2, p2 in own.items() if n2 != nm and p2 == pn)
+        if others and nm < others[0]:
             ob6.refute("depth-shared:%s+%s" % (nm, others[0]), "the %s and %s crossings are both sized by the parameter %s: one of the two ignores its own parameter, and the "
-                       "relation between command and data FIFO depths that keeps write data ahead of its commands is lost" % (nm, others[0], dk_), c_.loc)
+                       "relation between command and data FIFO depths that keeps write data ahead of its commands is lost" % (nm, others[0], pn), depth_of[nm][1].loc)
     cs_ = ctx.repo.module("litedram.core.controller").classes.get("ControllerSettings")
     cbd = None
     for fn_ in (cs_.body if cs_ is not None else []):
@@ -207,7 +275,15 @@ def run(ctx):
                 if a_ == "cmd_buffer_depth" and isinstance(d_, _ast2.Constant):
                     cbd = d_.value
     ob6.instance("default depths", {"adapter": dfl, "controller cmd_buffer_depth": cbd})
-    cd_, wd_ = dfl.get(depth_of.get("cmd", (None,))[0]), dfl.get(depth_of.get("wdata", (None,))[0])
+    def _dflt(nm_):
+        pn_ = own.get(nm_)
+        if pn_ is None or pn_ not in dfl:
+            return None
+        try:
+            return ieval(depth_term[nm_], {pn_: dfl[pn_]})
+        except Exception:
+            return None
+    cd_, wd_ = _dflt("cmd"), _dflt("wdata")
     if ob6.need(cd_ is not None and wd_ is not None and cbd is not None, "default depths of the crossing / the controller's command buffer not found"):
         if cd_ + cbd > wd_:
             ob6.refute("default-sizing", "default command-crossing depth %d + bank command buffer %d > write-data crossing depth %d: write commands can run further ahead than "
